@@ -7,8 +7,8 @@
 (* The trace is accepted iff it is a behaviour of the Totality automaton: every Diag is WellFormed on the       *)
 (* position model (lines = the physical lines of the file as CPython counts them, with length in code points,  *)
 (* UTF-8 length and the pieces str.splitlines() cuts them into), its rendered context consists of lines of the *)
-(* file, every Begin is closed by End, nothing raised.  Observations inside a named deviation class of the     *)
-(* unchanged tree are reported as dev:<class>; observations that satisfy the property but differ from the      *)
+(* file, every Begin is closed by End, nothing raised.  Observations inside the one open deviation class       *)
+(* (column-is-utf8-byte-offset) are reported as dev:<class>; observations that satisfy the property but differ from the      *)
 (* Impl model (ImplContext / ImplShow) as drift:<what>.                                                        *)
 EXTENDS Totality, TotalityValues, Json, IOUtils
 
@@ -34,26 +34,15 @@ TBegin ==
     /\ seen' = (IF Obs[l].same THEN seen ELSE "no")   \* diagnostics identical to recorded ones of the first configuration are not repeated
 
 Verdict(o) ==
-    LET f == IF slice = "frag" /\ o.frag >= 1 /\ o.frag <= Len(cprog) THEN cprog[o.frag] ELSE [kind |-> "none"]
-        impl == ImplContext(file, o.lineno, o.col)
+    LET impl == ImplContext(file, o.lineno, o.col)
         r == ImplShow(file, cnode, TRUE)
-    IN IF o.code = "internal_error"
-       THEN IF Dev_EllipsisDetail(o) THEN "dev:on-error-default-detail-ellipsis"
-            ELSE IF Dev_SharedTypeOfMetaclass(o) THEN "dev:shared-type-of-metaclass-unbound-mro"
-            ELSE IF Dev_MatchValueNotLiteral(f, o) THEN "dev:match-value-not-literal-internal-error"
-            ELSE IF Dev_RecursiveStrAlias(f, o) THEN "dev:recursive-string-alias-recursion-error"
-            ELSE IF slice = "layout" /\ o.exc = IndexExc /\ Dev_ForwardRefPosition(cnode, r, file) /\ r.out = "raise"
-                 THEN "dev:forward-reference-relative-position"
-            ELSE "viol:InternalError"
+    IN IF o.code = "internal_error" THEN "viol:InternalError"       \* no excused class is left (all repaired)
        ELSE IF ~(o.code \in Codes) \/ o.msglen <= 0 THEN "viol:IllFormedDiagnostic"
        ELSE IF ~RefWellFormedPos(o, file)
-       THEN \* the reported position is the one a node has inside a separately parsed string of this module
-            IF o.haspos /\ o.origin = "fwd" THEN "dev:forward-reference-relative-position"
-            \* the reported column is the UTF-8 byte offset of a node of the file
-            ELSE IF o.origin \in {"file", "both"} /\ Dev_ByteColumn(o, file) THEN "dev:column-is-utf8-byte-offset"
+       THEN \* open class: the reported column is the UTF-8 byte offset of a node of the file
+            IF o.origin \in {"file", "both"} /\ Dev_ByteColumn(o, file) /\ RefContextOK(o, file) THEN "dev:column-is-utf8-byte-offset"
             ELSE "viol:IllFormedDiagnostic"
-       ELSE IF ~RefContextOK(o, file)
-       THEN IF Dev_SplitPieces(o, file) THEN "dev:context-lines-from-splitlines" ELSE "viol:ContextNotFromFile"
+       ELSE IF ~RefContextOK(o, file) THEN "viol:ContextNotFromFile"
        ELSE IF o.ctx # impl.ctx \/ o.caret # impl.caret THEN "drift:context"
        ELSE IF slice = "layout" /\ o.marker /\ r.out = "diag" /\ (o.lineno # r.lineno \/ o.col # r.col) THEN "drift:position"
        ELSE "ok"
@@ -80,15 +69,14 @@ TValueOp ==
     /\ Obs[l].event = "ValueOp"
     /\ LET o == Obs[l]
        IN \A i \in 1..Len(o.fails) :
-             IF Dev_HashExceptionPropagates(o.a, o.b, o.fails[i].exc) THEN Say(o.tid, "dev:known-value-hash-exception-propagates")
+             IF Dev_BigUnionHashPropagates(o.a, o.b, o.fails[i].exc) THEN Say(o.tid, "dev:big-union-fast-path-hash-exception-propagates")
              ELSE Say(o.tid, "viol:ValueOperationRaised")
     /\ UNCHANGED <<lvars, file, slice, cprog, cnode, seen>>
 TRtOp ==
     /\ Obs[l].event = "RtOp"
     /\ LET o == Obs[l]
        IN \A i \in 1..Len(o.fails) :
-             IF Dev_HashExceptionPropagatesObj(o.o, o.fails[i].exc) THEN Say(o.tid, "dev:known-value-hash-exception-propagates")
-             ELSE Say(o.tid, "viol:RuntimeApiRaised")
+             Say(o.tid, "viol:RuntimeApiRaised")
     /\ UNCHANGED <<lvars, file, slice, cprog, cnode, seen>>
 
 TNext == l <= Len(Obs) /\ (THeader \/ TBegin \/ TDiag \/ TEnd \/ TRaised \/ TValueOp \/ TRtOp) /\ l' = l + 1 /\ UNCHANGED others
